@@ -3166,6 +3166,18 @@ LEFT JOIN conversions ON {join_condition}{group_by}{order_clause}{limit_clause}
         if not preagg:
             return None
 
+        # Every requested granularity must be derivable from the rollup's time column:
+        # the matcher only saw one of them, and a time dimension requested without a
+        # granularity (or a granularity on any other dimension) has no rollup column at all
+        for (_, gran), dim_name in zip(parsed_dims, dim_names):
+            if dim_name == preagg.time_dimension:
+                if not gran or not preagg.granularity:
+                    return None
+                if not matcher._is_granularity_compatible(gran, preagg.granularity):
+                    return None
+            elif gran:
+                return None
+
         # Generate SQL against pre-aggregation table
         return self._generate_from_preaggregation(
             model=model,
